@@ -138,6 +138,7 @@ SortByKey = z3.Function("SortByKey", Net, ListSpace.sort(), ListSpace.sort())
 AX_CARD = z3.ForAll([_s], card(_s) >= 0, patterns=[card(_s)])
 
 LEMMAS.update({
+    "def.array_extensionality": "two arrays are equal or differ at some index   [valid in the SMT theory of arrays; used as an instantiation hint only]",
     "L10.key_injective": "SKey(N,a) = SKey(N,b), a and b well-formed spaces over vars(N)  ==>  a = b   [Lean: Biobalm/Key.lean key_injective; base-4 digit lemma]",
     "L10.sorted_enum_unique": "l enumerates the finite set X without repetition  ==>  SortByKey(N,l) = SortedEnum(N,X)   [consequence of key_injective: a strict total order has a unique sorted enumeration]",
     "L2.perc_trap": "IsTrap(N,M) ==> IsTrap(N,Perc(N,M)) and Perc(N,M) ⊑ M and Perc(N,Perc(N,M)) = Perc(N,M)   [Lean: Biobalm/Percolation.lean]",
